@@ -96,6 +96,95 @@ def rule_R6(text, fired):
     return ''.join(out)
 
 
+# ---- R6b: write_fmt outlining -------------------------------------------------------------------
+def fmt_tag(lit):
+    import hashlib
+    body = lit
+    name = re.sub(r'[^A-Za-z0-9]+', '_', body.strip('r#"')).strip('_')[:18]
+    return (name + '_' if name else '') + hashlib.md5(lit.encode()).hexdigest()[:6]
+
+
+def rule_R6b(text, fired):
+    """`W.write_fmt(format_args!(LIT, a, b))` -> `wfmt_<tag>(W, a, b)`; the helper (declared in the unit template with
+    its assumed contract) stands for core::fmt rendering LIT with those arguments into the writer."""
+    toks = rs.tokenize(text)
+    out = []
+    i = 0
+    n = len(toks)
+
+    def nxt(k):
+        k += 1
+        while k < n and toks[k].kind in ('ws', 'comment', 'doc'):
+            k += 1
+        return k
+    while i < n:
+        t = toks[i]
+        if t.kind == 'ident' and t.text == 'write_fmt':
+            j = nxt(i)
+            if j < n and toks[j].text == '(':
+                k = nxt(j)
+                if k < n and toks[k].text == 'format_args' and toks[nxt(k)].text == '!':
+                    o = nxt(nxt(k))
+                    if toks[o].text != '(':
+                        raise Refuse('R6b: unexpected format_args! shape')
+                    depth = 0
+                    m = o
+                    while m < n:
+                        if toks[m].kind == 'punct' and toks[m].text == '(':
+                            depth += 1
+                        elif toks[m].kind == 'punct' and toks[m].text == ')':
+                            depth -= 1
+                            if depth == 0:
+                                break
+                        m += 1
+                    inner = toks[o + 1:m]
+                    lit_i = 0
+                    while inner[lit_i].kind in ('ws', 'comment', 'doc'):
+                        lit_i += 1
+                    if inner[lit_i].kind != 'str':
+                        raise Refuse('R6b: format string is not a literal')
+                    lit = inner[lit_i].text
+                    # split the arguments at top-level commas; format_args! borrows each of them
+                    parts, cur_, depth_ = [], [], 0
+                    for x in inner[lit_i + 1:]:
+                        if x.kind == 'punct' and x.text in '([{':
+                            depth_ += 1
+                        elif x.kind == 'punct' and x.text in ')]}':
+                            depth_ -= 1
+                        if x.kind == 'punct' and x.text == ',' and depth_ == 0:
+                            parts.append(''.join(cur_).strip())
+                            cur_ = []
+                        else:
+                            cur_.append(x.text)
+                    parts.append(''.join(cur_).strip())
+                    parts = [a for a in parts if a]
+                    parts = [re.sub(r'^[A-Za-z_][A-Za-z0-9_]*\s*=\s*(?!=)', '', a) for a in parts]   # name = expr
+                    rest_args = ', '.join(f'&({a})' for a in parts)
+                    close = nxt(m)          # the ')' of write_fmt(
+                    if toks[close].text != ')':
+                        raise Refuse('R6b: write_fmt has more than one argument')
+                    # receiver: tokens back to the previous '.', which must follow a plain identifier
+                    p = len(out) - 1
+                    while p >= 0 and out[p].strip() == '':
+                        p -= 1
+                    if p < 1 or out[p] != '.':
+                        raise Refuse('R6b: write_fmt without receiver')
+                    q = p - 1
+                    while q >= 0 and out[q].strip() == '':
+                        q -= 1
+                    recv = out[q]
+                    if not re.match(r'^[A-Za-z_][A-Za-z0-9_]*$', recv):
+                        raise Refuse('R6b: receiver of write_fmt is not an identifier: ' + recv)
+                    del out[q:]
+                    out.append(f'wfmt_{fmt_tag(lit)}({recv}' + (', ' + rest_args if rest_args else '') + ')')
+                    _count(fired, 'R6b')
+                    i = close + 1
+                    continue
+        out.append(t.text)
+        i += 1
+    return ''.join(out)
+
+
 # ---- R7: lossy strings -----------------------------------------------------------------------
 def rule_R7(text, fired):
     text, n = re.subn(r'String::from_utf8_lossy\(\s*&\s*([A-Za-z_][A-Za-z0-9_\.]*)\s*\)\s*\.to_string\(\)', r'lossy_string(&\1)', text)
@@ -180,6 +269,7 @@ def rule_R15(text, fired):
 
 
 RULES = {
+    'R6b': rule_R6b,
     'R16': rule_R16,
     'R15': rule_R15,
     'R14': rule_R14,
@@ -190,7 +280,7 @@ RULES = {
     'R9': rule_R9,
     'R13': rule_R13,
 }
-ORDER = ['R2', 'R9', 'R6', 'R7', 'R13', 'R14', 'R15', 'R16', 'R5']
+ORDER = ['R2', 'R9', 'R6b', 'R6', 'R7', 'R13', 'R14', 'R15', 'R16', 'R5']
 
 
 def apply_rules(text, active, fired, extra_subs=()):
